@@ -77,4 +77,88 @@ def ipTo4 (ip : Bytes) : Bytes :=
   else if ip.length = 16 ∧ ip.take 12 = v4InV6Prefix then ip.drop 12
   else []
 
+/-! #### a pointer receiver whose state survives an error return
+
+`OutcomeS σ α` is a computation of the generated code over a pointer receiver `*σ`: it is given the state the receiver
+points to and returns the state it leaves there **next to** the outcome — also when the outcome is an error or a panic
+(Go mutates through the pointer; what was stored before a `return …, err` stays stored).  The generated body keeps the
+receiver in a local (`e`) as before and writes it through (`putRecv e`) at every store; `Outcome` computations are lifted
+(they do not touch the receiver). -/
+
+def OutcomeS (σ α : Type) : Type := σ → σ × Outcome α
+
+namespace OutcomeS
+variable {σ α β : Type}
+
+@[inline] def bind (x : OutcomeS σ α) (f : α → OutcomeS σ β) : OutcomeS σ β := fun s =>
+  match x s with
+  | (s', .ok a) => f a s'
+  | (s', .err e) => (s', .err e)
+  | (s', .panic) => (s', .panic)
+  | (s', .hang) => (s', .hang)
+
+instance : Monad (OutcomeS σ) where
+  pure a := fun s => (s, .ok a)
+  bind := OutcomeS.bind
+
+/-- an `Outcome` computation leaves the receiver alone -/
+@[inline] def lift (o : Outcome α) : OutcomeS σ α := fun s => (s, o)
+
+instance : MonadLift Outcome (OutcomeS σ) where
+  monadLift := OutcomeS.lift
+
+/-- fuel exhausted -/
+def hang : OutcomeS σ α := lift .hang
+
+/-- run on the receiver's state -/
+@[inline] def run (x : OutcomeS σ α) (s : σ) : σ × Outcome α := x s
+
+@[simp] theorem run_pure (a : α) (s : σ) : (pure a : OutcomeS σ α).run s = (s, .ok a) := rfl
+@[simp] theorem run_lift (o : Outcome α) (s : σ) : (lift o : OutcomeS σ α).run s = (s, o) := rfl
+@[simp] theorem run_monadLift (o : Outcome α) (s : σ) : (monadLift o : OutcomeS σ α).run s = (s, o) := rfl
+@[simp] theorem run_liftM (o : Outcome α) (s : σ) : (liftM o : OutcomeS σ α).run s = (s, o) := rfl
+@[simp] theorem run_hang (s : σ) : (hang : OutcomeS σ α).run s = (s, .hang) := rfl
+theorem run_bind (x : OutcomeS σ α) (f : α → OutcomeS σ β) (s : σ) :
+    (x >>= f).run s = match x.run s with
+      | (s', .ok a) => (f a).run s'
+      | (s', .err e) => (s', .err e)
+      | (s', .panic) => (s', .panic)
+      | (s', .hang) => (s', .hang) := rfl
+@[simp] theorem run_bind_lift (o : Outcome α) (f : α → OutcomeS σ β) (s : σ) :
+    ((monadLift o : OutcomeS σ α) >>= f).run s = match o with
+      | .ok a => (f a).run s
+      | .err e => (s, .err e)
+      | .panic => (s, .panic)
+      | .hang => (s, .hang) := by
+  cases o <;> rfl
+end OutcomeS
+
+/-- the store through the pointer receiver: `*e = s` -/
+@[inline] def putRecv {σ : Type} (s : σ) : OutcomeS σ Unit := fun _ => (s, .ok ())
+
+@[simp] theorem OutcomeS.run_bind_putRecv {σ β : Type} (s' : σ) (f : Unit → OutcomeS σ β) (s : σ) :
+    (putRecv s' >>= f).run s = (f ()).run s' := rfl
+
+/-! #### handler glue (Gen/LoopsNaming.lean) -/
+
+/-- `v := m[k]` (the zero value `d` when absent) -/
+def mapGetD {κ ν : Type} [DecidableEq κ] (m : GMap κ ν) (k : κ) (d : ν) : ν := (mapGet? m k).getD d
+
+/-- the value stored under `k`, if any, replaced by `f` of it (keys and order unchanged) -/
+def mapAdjust {κ ν : Type} [DecidableEq κ] (m : GMap κ ν) (k : κ) (f : ν → ν) : GMap κ ν :=
+  m.map (fun l => l.map (fun kv => if kv.1 = k then (kv.1, f kv.2) else kv))
+
+/-- the receiver as it is now -/
+@[inline] def getRecv {σ : Type} : OutcomeS σ σ := fun s => (s, .ok s)
+
+/-- a pointer-receiver method `x` run on a LOCAL struct `e` inside a computation over the receiver `σ`: the local's final
+    state `e'` — also when the method fails — is handed to `wb`, which writes it to wherever the local's reference
+    fields are shared (the identity when they are not); the results are the local's final state and the method's -/
+def onLocal {σ τ α : Type} (e : τ) (wb : τ → σ → σ) (x : OutcomeS τ α) : OutcomeS σ (τ × α) := fun s =>
+  match x e with
+  | (e', .ok a) => (wb e' s, .ok (e', a))
+  | (e', .err er) => (wb e' s, .err er)
+  | (e', .panic) => (wb e' s, .panic)
+  | (e', .hang) => (wb e' s, .hang)
+
 end PV.Model.LoopGoDns
